@@ -62,7 +62,7 @@ def run(case):
             if view:
                 tags.append("view:" + view)
     tags = sorted(set(tags))
-    derived_used = any(st["op"] in ("obs", "assign", "maskassign") and st["u"] != "a0" for st in steps)
+    derived_used = any(st["op"] in ("obs", "assign", "maskassign", "rowwrite", "ravelwrite") and st["u"] != "a0" for st in steps)
     pdesc = describe(steps)
     if not L.ok:
         return violated("the program raised %s: %s\n%s" % (type(L.exc).__name__, L.exc, pdesc), tags + ["raised"], got=L.tb)
@@ -185,6 +185,21 @@ def directed():
             st += [{"op": "neg", "v": "a2", "u": "a1"}, {"op": "ufcol", "v": "a3", "u": "a2", "col": col, "side": "R"}, {"op": "ufcol", "v": "a4", "u": "a1", "col": col, "side": "L"},
                    {"op": "obs", "u": "a3", "what": "tolist", "arg": None}, {"op": "obs", "u": "a4", "what": "tolist", "arg": None}]
             yield {"steps": st, "hazard": False}
+    # writes through the views an array hands out (row view, flat buffer, whole-array alias) and a second look at arrays computed from it before
+    base = [{"op": "init", "v": "a0", "rows": [[5, 1, 3], [2, 9], [], [4]]}]
+    for mk in ("sort", "cumsum", "unique", "zeros"):
+        for wr in ({"op": "rowwrite", "u": "a1", "i": 0, "j": 0, "val": 777}, {"op": "ravelwrite", "u": "a1", "k": 1, "val": 888},
+                   {"op": "assign", "u": "a2", "rs": 1, "cs": None, "has_cs": False, "vk": "scalar", "val": 999}):
+            yield {"steps": base + [{"op": mk, "v": "a1", "u": "a0"}, {"op": "alias", "v": "a2", "u": "a1", "form": "ell"}, wr,
+                                    {"op": "obs", "u": "a1", "what": "sort", "arg": None}, {"op": "obs", "u": "a1", "what": "unique", "arg": None},
+                                    {"op": "obs", "u": "a0", "what": "tolist", "arg": None}, {"op": "obs", "u": "a2", "what": "tolist", "arg": None}], "hazard": False}
+    for sel in [(slice(1, None), None, False), ([2, 0, 1], None, False), (slice(None, None, -1), None, False), (slice(None), slice(None, None, -1), True)]:
+        rows1 = prog.m_sel(base[0]["rows"], *sel)[1]
+        i1 = next(i for i, r in enumerate(rows1) if r)
+        yield {"steps": base + [{"op": "sel", "v": "a1", "u": "a0", "rs": sel[0], "cs": sel[1], "has_cs": sel[2]}, {"op": "rowwrite", "u": "a1", "i": i1, "j": 0, "val": 777},
+                                {"op": "obs", "u": "a0", "what": "tolist", "arg": None}, {"op": "obs", "u": "a1", "what": "tolist", "arg": None}], "hazard": False}
+        yield {"steps": base + [{"op": "sel", "v": "a1", "u": "a0", "rs": sel[0], "cs": sel[1], "has_cs": sel[2]}, {"op": "ravelwrite", "u": "a1", "k": 0, "val": 888},
+                                {"op": "obs", "u": "a0", "what": "ravel", "arg": None}, {"op": "obs", "u": "a1", "what": "tolist", "arg": None}], "hazard": False}
     # np.diff with n = 0, 1, 2 followed by a write into the result: the source must not change
     for nn in (0, 1, 2):
         yield {"steps": [{"op": "init", "v": "a0", "rows": [[1, 4, 9], [2], [], [5, 5]]}, {"op": "diff", "v": "a1", "u": "a0", "n": nn},
